@@ -72,7 +72,9 @@ Section Mon.
                           | KWait d, Some (_, t0) =>
                               (* completed only once the time is up; and completed as soon as it is *)
                               (negb (completed (vst v w)) || failed (vst v w) || (t0 + d - 1 <=? now'))
-                              && (completed (vst v w) || failed (vst v w) || (now' <? t0 + d - 1))
+                              && (completed (vst v w) || failed (vst v w) || (now' <? t0 + d - 1)
+                                  (* a Wait in a Watch / Alarm body is dropped with it when its block is ended *)
+                                  || existsb (fun a => is_block p a && block_ended (vst v a)) (ancestors p w))
                           | _, _ => true
                           end) waits
         && c03_wait now' ts' (Some v) vs' began' newly
